@@ -200,6 +200,36 @@ Theorem accepted_block_has_no_duplicate :
 Proof. exact accept_no_duplicates. Qed.
 Print Assumptions accepted_block_has_no_duplicate.
 
+(* over any sequence of candidate blocks on a zone chain (each accepted block becomes the head
+   and carries the inbound set the dominant chain fixed for it; refused candidates leave the
+   head unchanged): what was pending or delivered = what accepted blocks executed, in order,
+   followed by what is still pending -- nothing lost, duplicated or reordered *)
+Theorem chain_exactly_once_in_order :
+  forall (H : Type) (hash : etx -> H) (heqb : H -> H -> bool),
+  (forall a b, heqb a b = true <-> a = b) ->
+  forall cs t inb, Inv t -> wf_etxs inb -> wf_cands cs ->
+  let r := run_chain H hash heqb t inb cs in
+  Inv (snd (fst r)) /\ wf_etxs (snd r) /\
+  map hash (abs t ++ inb) ++ map hash (chain_delivered H hash heqb t inb cs) =
+  map hash (chain_executed H hash heqb t inb cs) ++ map hash (abs (snd (fst r)) ++ snd r).
+Proof. exact chain_conservation. Qed.
+Print Assumptions chain_exactly_once_in_order.
+
+Theorem chain_executes_nothing_twice :
+  forall (H : Type) (hash : etx -> H) (heqb : H -> H -> bool),
+  (forall a b, heqb a b = true <-> a = b) ->
+  forall cs t inb, Inv t -> wf_etxs inb -> wf_cands cs ->
+  NoDup (map hash (abs t ++ inb) ++ map hash (chain_delivered H hash heqb t inb cs)) ->
+  NoDup (map hash (chain_executed H hash heqb t inb cs)).
+Proof. exact chain_no_double_execution. Qed.
+Print Assumptions chain_executes_nothing_twice.
+
+(* generated obligation: ValidateState refuses a block whose header ETX-set root is not the
+   root of the queue trie after processing (the queue content is committed by the header) *)
+Theorem etx_root_committed_in_source : etx_root_committed_ok = true.
+Proof. vm_compute. reflexivity. Qed.
+Print Assumptions etx_root_committed_in_source.
+
 (* ======================= (c) destination filters ======================= *)
 
 Theorem routing_codes_as_in_source :
@@ -278,6 +308,16 @@ Example accept_nonvacuous :
   fst (accept_block_id ex_t [[4]] [([1], 21000)] 300000 5000000) = VGasRule /\
   fst (accept_block_id ex_t [[4]] [([1], 1000000)] 300000 5000000) = VAccept /\
   fst (accept_block_id ex_t [[4]] [([1], 2000001)] 300000 5000000) = VGasRule.
+Proof. vm_compute. repeat split. Qed.
+
+Example chain_nonvacuous :
+  let cs := [([([1], 1000000)], 300000, 5000000, [[4]; [5]]);          (* takes [1] of [1;2;3]: accepted *)
+             ([([3], 1000000)], 300001, 5000000, [[9]]);                 (* out of order: refused *)
+             ([([2], 500000); ([3], 500000)], 300001, 5000000, [[6]]);   (* accepted *)
+             ([([4], 1000000); ([5], 1000000)], 300002, 5000000, [])] in (* accepted, [6] stays pending *)
+  let '(vs, tf, inbf) := run_chain_id (init_at 255) [[1]; [2]; [3]] cs in
+  map verdict_code vs = [0; 2; 0; 0] /\ abs tf = [[6]] /\ inbf = [] /\ get_oldest tf = 260 /\
+  chain_executed (list N) (fun e => e) keqb (init_at 255) [[1]; [2]; [3]] cs = [[1]; [2]; [3]; [4]; [5]].
 Proof. vm_compute. repeat split. Qed.
 
 Example route_nonvacuous :
